@@ -211,6 +211,12 @@ def gen_case(rng):
             met = list(r0["st"])[0]
             for pre in rng.sample(["DM_", "SK_"], rng.randint(1, 2)):
                 spec["rxns"].append({"id": pre + met, "st": {met: rng.choice(["-1", "1"])}, "lb": rng.choice(["0", "-10"]), "ub": rng.choice(["10", "1000"]), "rule": ""})
+    if rng.random() < 0.45:
+        # boundary reactions whose metabolite has another coefficient than +-1 (`2 a <=>`, `--> 1/2 a`): scaling of fluxes and ranges by the factor
+        for r in spec["rxns"]:
+            if len(r["st"]) == 1 and rng.random() < 0.6:
+                (mid, c), = r["st"].items()
+                r["st"] = {mid: canon.num(F(c) * rng.choice([2, 3, F(1, 2), 4, F(3, 2)]))}
     rids = [r["id"] for r in spec["rxns"]]
     case = {"spec": spec, "solution": solution, "fva": rng.choice(["none", "none", "frame", "float"])}
     if case["solution"] == "given":
